@@ -22,6 +22,7 @@ from .shrink import minimise
 
 RUN_WALL_LIMIT = float(os.environ.get('VERIF_RUN_WALL', '30'))     # seconds per single run
 ISOLATE_EVERY = int(os.environ.get('VERIF_ISOLATE_EVERY', '25'))
+_WORKER_STATE = {}
 DIGEST_CAP = 3_000_000
 
 
@@ -90,6 +91,85 @@ def isolated_run(eng, prop, plan, keep_log=False, limit=None):
     return pickle.loads(data)
 
 
+class Zygote:
+    """A pristine copy of a worker process, forked before the worker executed anything. It never executes a
+    plan itself; for every request it forks a grandchild that does, so that those runs see a process in which
+    nothing has happened yet - even though the worker that asks has executed thousands of runs."""
+    def __init__(self, prop):
+        import pickle
+        import struct
+        self._pickle, self._struct = pickle, struct
+        req_r, req_w = os.pipe()
+        res_r, res_w = os.pipe()
+        pid = os.fork()
+        if pid == 0:
+            os.close(req_w)
+            os.close(res_r)
+            try:
+                from engines import get_engine
+                eng = get_engine(prop)
+                fin = os.fdopen(req_r, 'rb')
+                while True:
+                    head = fin.read(4)
+                    if len(head) < 4:
+                        break
+                    plan, keep_log, limit, avoid = pickle.loads(fin.read(struct.unpack('>I', head)[0]))
+                    eng.avoid = set(avoid)
+                    gpid = os.fork()
+                    if gpid == 0:
+                        code = 0
+                        try:
+                            out = guarded_run(eng, prop, plan, keep_log=keep_log, limit=limit)
+                            out['cov'] = list(out.get('cov', ()))
+                            out['stats'] = dict(out.get('stats', {}))
+                            data = pickle.dumps(out)
+                        except BaseException:
+                            data = pickle.dumps({'viol': None, 'digest': 'error', 'nontrivial': False, 'stats': {},
+                                                 'cov': [], 'harness_error': traceback.format_exc()})
+                            code = 1
+                        try:
+                            os.write(res_w, struct.pack('>I', len(data)))
+                            view = memoryview(data)
+                            while view:
+                                n = os.write(res_w, view[:65536])
+                                view = view[n:]
+                        finally:
+                            os._exit(code)
+                    _, status = os.waitpid(gpid, 0)
+                    if status != 0 and not os.WIFEXITED(status):
+                        # the grandchild died without answering: answer for it
+                        data = pickle.dumps({'viol': None, 'digest': 'error', 'nontrivial': False, 'stats': {},
+                                             'cov': [], 'harness_error': f'isolated run died (status {status})'})
+                        os.write(res_w, struct.pack('>I', len(data)) + data)
+            finally:
+                os._exit(0)
+        os.close(req_r)
+        os.close(res_w)
+        self.pid = pid
+        self.w = os.fdopen(req_w, 'wb')
+        self.r = os.fdopen(res_r, 'rb')
+
+    def run(self, plan, keep_log=False, limit=None, avoid=()):
+        data = self._pickle.dumps((plan, keep_log, limit, list(avoid)))
+        self.w.write(self._struct.pack('>I', len(data)) + data)
+        self.w.flush()
+        head = self.r.read(4)
+        if len(head) < 4:
+            return {'viol': None, 'digest': 'error', 'nontrivial': False, 'stats': {}, 'cov': (),
+                    'harness_error': 'pristine-process server went away'}
+        return self._pickle.loads(self.r.read(self._struct.unpack('>I', head)[0]))
+
+
+_ZYGOTE = {}
+
+
+def pristine_run(eng, prop, plan, keep_log=False, limit=None):
+    z = _ZYGOTE.get(prop)
+    if z is None:
+        return isolated_run(eng, prop, plan, keep_log=keep_log, limit=limit)
+    return z.run(plan, keep_log=keep_log, limit=limit, avoid=sorted(eng.avoid))
+
+
 def plan_size(plan):
     return len(json.dumps(plan, sort_keys=True, default=str))
 
@@ -100,6 +180,9 @@ def _worker(args):
     faulthandler.dump_traceback_later(max(600, RUN_WALL_LIMIT * 4), exit=True)
     eng = get_engine(prop)
     eng.avoid = set(avoid)
+    if prop not in _ZYGOTE and not _WORKER_STATE.get('ran'):
+        _ZYGOTE[prop] = Zygote(prop)      # this process has not executed a single run yet: keep a pristine copy
+    _WORKER_STATE['ran'] = True
     stats = collections.Counter()
     cov = set()
     digests = []
@@ -111,10 +194,10 @@ def _worker(args):
     sim_s = 0.0
     for idx in range(start, stop):
         plan = eng.gen(prop, seed, idx, tier)
-        if idx % ISOLATE_EVERY == ISOLATE_EVERY - 1:
+        if idx % ISOLATE_EVERY == ISOLATE_EVERY - 1 or eng.wants_isolation(plan):
             # a sample of the runs is executed in a freshly forked, pristine child: whatever the first call of a
             # kind does in a process (build a cache, set a global) happens inside the run that is judged
-            out = isolated_run(eng, prop, plan)
+            out = pristine_run(eng, prop, plan)
             out['stats'] = collections.Counter(out.get('stats', {}))
             out['stats']['runs_in_pristine_process'] += 1
         else:
@@ -143,7 +226,7 @@ def _worker(args):
             if (ent['iso'] < 25 or (ent['iso'] < 200 and ent['count'] % 5 == 0)) and \
                     not any(c[0] == 0 for c in ent['cands'][:2]):
                 ent['iso'] += 1
-                o2 = isolated_run(eng, prop, final)
+                o2 = pristine_run(eng, prop, final)
                 if 'harness_error' not in o2 and o2['viol'] is not None and eng.same_signature(o2['viol']['sig'], sig):
                     alone = 0
             ent['cands'].append((alone, size, idx, final, out['viol']))
